@@ -224,6 +224,7 @@ fn replay(args: &Args) -> i32 {
             return 2;
         }
     };
+    alloc::set_limit(args.u64("mem-limit-mb", 1024) << 20);
     let mut ctx = engines::Ctx::new(args);
     let engine = v["engine"].as_str().unwrap_or("").to_string();
     let got = engines::replay_one(&engine, &v["scenario"], &mut ctx);
